@@ -391,6 +391,8 @@ def decode_seed(mg, seed):
     if kind == "scalar":
         return float(seed["v"])
     a = np.array(seed["v"], dtype=seed.get("dtype", "float64")).reshape(seed["shape"])
+    if seed.get("order") == "F":
+        a = np.asfortranarray(a)
     if kind == "array":
         return a
     if kind == "tensor":
